@@ -27,6 +27,16 @@ func genC06(rt *rapid.T) World {
 	w.Spec.TemplateVolumes = rapid.SampledFrom([]int{0, 0, 1}).Draw(rt, "templateVolumes")
 	w.Spec.ClaimLabels = rapid.Bool().Draw(rt, "claimLabels")
 	w.Spec.Service = rapid.SampledFrom([]string{"", "svc", "headless-svc"}).Draw(rt, "service")
+	if rapid.IntRange(0, 3).Draw(rt, "orphanRecreate") == 0 {
+		// orphaning delete + re-creation with another governing service / claim list, then an ordinal is created again
+		seq := []Op{{K: OpReconcile}, {K: OpSetRecreate, A: 1, B: 100 + rapid.IntRange(0, 2).Draw(rt, "orcKind")},
+			{K: OpUserDeletePod, A: rapid.IntRange(0, 20).Draw(rt, "orcPod")}, {K: OpSettle}, {K: OpEditReplicas, A: rapid.IntRange(0, 20).Draw(rt, "orcRepl")}, {K: OpSettle}}
+		at := 0
+		if len(w.Ops) > 0 && rapid.Bool().Draw(rt, "orcLater") {
+			at = rapid.IntRange(0, len(w.Ops)).Draw(rt, "orcAt")
+		}
+		w.Ops = append(w.Ops[:at:at], append(seq, w.Ops[at:]...)...)
+	}
 	for i := range w.Ops {
 		if w.Ops[i].K == OpReconcile && rapid.IntRange(0, 3).Draw(rt, "claimFault") == 0 {
 			w.Ops[i].PVCFault = rapid.IntRange(1, 6).Draw(rt, "pvcFault")
@@ -94,6 +104,11 @@ func monC06(rep Rep, v *View, s *Sys, claimUID map[string]string) (creates int, 
 			}
 			if len(pod.Spec.Containers) > 0 && pod.Spec.Containers[0].Image != img {
 				rep.Violate("identity/revision-label-template", "pod %s labelled %q (image %q) but built with %q%s", pod.Name, rev, img, pod.Spec.Containers[0].Image, ctx(v))
+			}
+			if t := v.RevTemplate[rev]; t != nil {
+				if d := podBuiltFrom(pod, t); d != "" {
+					rep.Violate("identity/revision-label-template", "pod %s labelled %q, but it is not that revision's template: %s%s", pod.Name, rev, d, ctx(v))
+				}
 			}
 			nctl := 0
 			for _, r := range pod.OwnerReferences {
